@@ -91,6 +91,9 @@ THEOREMS = [
     "export_import_tree", "import_fuel_mono_partial", "reexport_canon",
     "mode_roundtrip", "mode_roundtrip_git", "mode_kind_agrees_with_import",
     "sortBy_sorted", "sortBy_id_of_sorted", "objsRoot_wf",
+    "run_history_roots", "run_history_from", "run_history_keys_witness",
+    "import_export_git", "import_export_git_unsorted_witness",
+    "canon_items", "roundtrip_items", "canon_items_unusual_witness",
 ]
 RULE = ("native case = one revision of a generated history (script of working-tree operations on up to 3 lanes "
         "with forks and merges), identified by the digest of its tree and parents; non-trivial = the revision has a "
@@ -100,7 +103,9 @@ ASSUMPTIONS = [
     "sibling names in a versioned tree are unique (inventory invariant; the model's tree objects keep duplicates, dulwich's Tree is a dict)",
     "(file_id, revision) identifies one text (repository invariant; this is what makes any SHA map filled from ancestors 'correct' in the sense of cacheOK)",
     "iter_changes reports every path whose leaf differs from the base (C10); the model decides 'nothing changed' by structural comparison",
-    "git repositories are built from the same value space as native histories (no empty trees, no submodules, no '.git' entries)",
+    "git repositories are built from the same value space as native histories (no empty trees, no submodules, no '.git' entries, default file modes)",
+    "entries named '.git' (BANNED_FILENAMES) cannot exist in a git tree: the export drops them and the round-trip oracle excepts them (and everything below a directory of that name), as the model's itemsNC does",
+    "no ghost parents: a parent that is not present is skipped by the model; the pointless-commit branch of _revision_to_objects with a ghost leftmost parent is not modelled",
 ]
 TRUSTED = [
     "sha-1, zlib and pack files are dulwich's; the model's SHA-1 and tree serialisation are tied by T2 on real ids, not proved",
@@ -109,6 +114,7 @@ TRUSTED = [
 ]
 
 NAMES = ["ab", "ab-c", "ab.c", "ab0", "a", "b", "ff", "gg", "dd", "eé", "zz", "Ab"]
+BANNED = ".git"          # BANNED_FILENAMES: only ever generated below a directory (never at the tree root)
 CONTENTS = [b"", b"x\n", b"hello\n", b"hello2\n", b"\x00\xff bin", b"a\r\nb", b"tgt", b"same\n"]
 TARGETS = ["tgt", "ab", "../x", "eé", "a b"]
 
@@ -303,6 +309,8 @@ class _StepGen:
             if excl and (d == excl or d.startswith(excl + "/")):
                 return None
             n = rng.choice(NAMES)
+            if d and rng.random() < 0.07:
+                n = BANNED
             p = n if not d else d + "/" + n
             return None if p in st or p.count("/") > 2 else p
 
@@ -440,6 +448,10 @@ def leaves_keys(ch, out=None):
     return out
 
 
+def _has_banned(ch):
+    return any(name == b".git" or (n[0] == "D" and _has_banned(n[1])) for name, n in ch.items())
+
+
 def has_content(n):
     return n[0] != "D" or any(has_content(c) for name, c in n[1].items() if name != b".git")
 
@@ -449,6 +461,8 @@ def plain_dump(ch, pre=""):
     directories that have no represented descendant dropped"""
     out = {}
     for name, n in ch.items():
+        if name == b".git":
+            continue
         p = pre + name.decode("utf-8", "surrogateescape")
         if n[0] == "F":
             out[p] = ("f", n[3], n[4])
@@ -476,6 +490,28 @@ def model_dump_of(ch, pre=b""):
         else:
             out.append("%s|d" % enc_bpath(p))
             out.extend(model_dump_of(n[1], p))
+    return out
+
+
+def items_str(d):
+    """the driver's `items` format for an oracle dump {path: (kind, payload, exec)}"""
+    return ";".join(sorted("%s|%s|%s|%s" % (enc_path(p), k, hx(data), "T" if x else "F")
+                           for p, (k, data, x) in d.items())) or "-"
+
+
+def native_dump_of(ch, pre=b""):
+    """the driver's `impn` format for a real fetched tree: kinds, contents, executable flags and recorded
+    unusual modes as they are in the inventory / revision properties"""
+    out = []
+    for name, n in ch.items():
+        p = name if not pre else pre + b"/" + name
+        if n[0] == "F":
+            out.append("%s|f|%s|%s|%s" % (enc_bpath(p), hx(n[3]), "T" if n[4] else "F", "~" if n[5] is None else n[5]))
+        elif n[0] == "L":
+            out.append("%s|l|%s|%s" % (enc_bpath(p), hx(n[3]), "~" if n[4] is None else n[4]))
+        else:
+            out.append("%s|d" % enc_bpath(p))
+            out.extend(native_dump_of(n[1], p))
     return out
 
 
@@ -520,7 +556,7 @@ def _as_bytes(x):
 
 def warm_export(repo, order, trees, nodes, evict_rng=None):
     """drive BazaarObjectStore revision by revision.  Returns
-    {revid: (root_sha, model_line)}"""
+    {revid: (root_sha, model_line, evicted keys)}"""
     from breezy.git.cache import DictBzrGitCache
     from breezy.git.object_store import BazaarObjectStore
     store = BazaarObjectStore(repo)
@@ -535,11 +571,13 @@ def warm_export(repo, order, trees, nodes, evict_rng=None):
         for revid in order:
             rev = repo.get_revision(revid)
             present = [p for p in rev.parent_ids if p in trees]
+            evicted = []
             if evict_rng is not None:
-                for r2 in list(idmap._by_fileid):
-                    for fid in list(idmap._by_fileid[r2]):
+                for r2 in sorted(idmap._by_fileid):
+                    for fid in sorted(idmap._by_fileid[r2]):
                         if evict_rng.random() < 0.25:
                             del idmap._by_fileid[r2][fid]
+                            evicted.append((fid, r2))
             # the cache content for every key the conversion may ask for
             keys = set(leaves_keys(nodes[revid]))
             for p in present:
@@ -567,7 +605,7 @@ def warm_export(repo, order, trees, nodes, evict_rng=None):
                 store.commit_write_group()
             root = commit_tree_sha(idmap, csha).decode()
             line = "incr %s %s %s %s %s" % (";".join(centries) or "-", btree, bsha, others, enc_tree(nodes[revid]))
-            res[revid] = (root, line)
+            res[revid] = (root, line, evicted)
     return res
 
 
@@ -630,12 +668,24 @@ def plain_dump_all(ch, pre=""):
     return out
 
 
+def env_error(e):
+    """is this exception a problem of the machine (disk, memory, descriptors, a killed worker) rather
+    than behaviour of the code under test?  Such a run is an infrastructure failure (exit 2)."""
+    import errno
+    if isinstance(e, (MemoryError, TimeoutError, BrokenPipeError)):
+        return True
+    if isinstance(e, OSError) and e.errno in (errno.ENOSPC, errno.EDQUOT, errno.EMFILE, errno.ENFILE, errno.ENOMEM,
+                                              errno.EIO, errno.EROFS, errno.EAGAIN):
+        return True
+    return False
+
+
 # --------------------------------------------------------------------------
 # one native history (runs in a worker process)
 
 def native_case(arg):
     seed_tuple, nsteps, script = arg
-    R = dict(cases=[], lines=[], impls=[], viol=[], counts={}, seed=list(seed_tuple))
+    R = dict(cases=[], lines=[], impls=[], viol=[], counts={}, seed=list(seed_tuple), stat_lines=[])
 
     def count(k, n=1):
         R["counts"][k] = R["counts"].get(k, 0) + n
@@ -653,6 +703,8 @@ def native_case(arg):
     except Exception as e:
         count("history-build-failed:" + type(e).__name__)
         R["error"] = repr(e)
+        if env_error(e):
+            R["infra"] = "%s: %s" % (type(e).__name__, str(e)[:200])
         return R
     R["script"] = script
     for s in script:
@@ -668,9 +720,11 @@ def native_case(arg):
             allrevs = sorted(repo.all_revision_ids())
             order = topo(repo, allrevs)
             parents = {r: [p for p in repo.get_revision(r).parent_ids if p in allrevs] for r in allrevs}
+            repo_parent_ids = {r: list(repo.get_revision(r).parent_ids) for r in allrevs}
             trees = {r: repo.revision_tree(r) for r in order}
             nodes = {r: tree_nodes(trees[r]) for r in order}
         count("revisions", len(order))
+        count("revisions-with-banned-name", sum(1 for r in order if _has_banned(nodes[r])))
         count("merges", sum(1 for r in order if len(parents[r]) > 1))
         # ---- from scratch, per revision --------------------------------
         scratch = {}
@@ -690,14 +744,28 @@ def native_case(arg):
             evic = warm_export(repo, order, trees, nodes, evict_rng=rng)
         for r in order:
             for tag, res in (("warm", warm), ("evict", evic)):
-                root, line = res[r]
+                root, line, _ev = res[r]
                 case = dict(base_case, rev=r.decode(), what=tag)
                 R["cases"].append((case, None, False))
                 R["lines"].append(line)
                 R["impls"].append(root)
+                R["stat_lines"].append("incrstat" + line[4:])
                 if root != scratch[r][""].decode():
                     viol(case, "revision %s: root tree id %s through the %s SHA map, %s from scratch" % (
                         r.decode(), root, tag, scratch[r][""].decode()))
+        # the whole history through the model's `runHist` (SHA map kept by the model itself; the keys the
+        # real map lost are evicted in the model too): every recorded root id
+        pos = {r: i for i, r in enumerate(order)}
+        for tag, res in (("warm", warm), ("evict", evic)):
+            revs = []
+            for r in order:
+                ps = ".".join(str(pos[q]) for q in repo_parent_ids[r] if q in pos) or "-"
+                ev = ".".join("%s:%s" % (hx(f), hx(v)) for f, v in res[r][2]) or "-"
+                revs.append("%s!%s!%s" % (ps, ev, enc_tree(nodes[r])))
+            R["cases"].append((dict(base_case, what="hist-" + tag), None, False))
+            R["lines"].append("hist " + "|".join(revs))
+            R["impls"].append(";".join(res[r][0] for r in order) or "-")
+            count("hist-evicted-keys", sum(len(res[r][2]) for r in order))
         # ---- push in two stages --------------------------------------------
         from breezy.repository import InterRepository
         grepo = new_git_repo()
@@ -745,6 +813,8 @@ def native_case(arg):
                         back[r] = tree_nodes(brepo.revision_tree(revidmap[r][1]))
             except Exception as e:
                 fetch_err = e
+                if env_error(e):
+                    raise
                 viol(dict(base_case, what="fetch"), "fetching the pushed history back raised %s: %s" % (type(e).__name__, str(e)[:200]))
                 count("fetch-failed:" + type(e).__name__)
         # resolve the deferred `imp` expectations and add the `rt` lines
@@ -766,6 +836,11 @@ def native_case(arg):
             R["impls"].append("%s %s" % (d, d))
             want = plain_dump(nodes[r])
             got = plain_dump_all(back[r])
+            # the model's specification of what must survive (itemsNC) against the oracle's own, and the
+            # items of the model's canonical form against the tree that really came back
+            R["cases"].append((dict(case, what="items"), None, False))
+            R["lines"].append("items " + enc_tree(nodes[r]))
+            R["impls"].append("%s %s" % (items_str(want), items_str(got)))
             if want != got:
                 diff = sorted(set(want.items()) ^ set(got.items()), key=repr)[:4]
                 viol(case, "revision %s after push + fetch differs from the original: %r" % (r.decode(), diff))
@@ -773,7 +848,10 @@ def native_case(arg):
     except Exception as e:
         import traceback
         R["error"] = traceback.format_exc()[-1500:]
-        viol(base_case, "unexpected %s while exporting/pushing: %s" % (type(e).__name__, str(e)[:300]))
+        if env_error(e):
+            R["infra"] = "%s: %s" % (type(e).__name__, str(e)[:200])
+        else:
+            viol(base_case, "unexpected %s while exporting/pushing: %s" % (type(e).__name__, str(e)[:300]))
     finally:
         shutil.rmtree(root, ignore_errors=True)
     return R
@@ -906,6 +984,8 @@ def git_case(arg):
             for i in missing:
                 brepo.fetch(grepo, revision_id=revids[i])
         except Exception as e:
+            if env_error(e):
+                raise
             viol(dict(base_case, what="fetch"), "fetching the git history raised %s: %s" % (type(e).__name__, str(e)[:200]))
             count("git-fetch-failed:" + type(e).__name__)
             return R
@@ -946,6 +1026,12 @@ def git_case(arg):
                     sc[path] = obj.id
                 if sc.get("") != orig:
                     viol(dict(case, what="git-reexport"), "commit %d: re-exported root tree %r, original %r" % (i, sc.get(""), orig))
+                R["cases"].append((dict(case, what="git-reexport-model"), None, False))
+                R["lines"].append("reexp %s %s %d" % (enc_store(objs), orig.decode(), 12))
+                R["impls"].append("%s %s T" % (_as_bytes(sc.get("", b"?")).decode(), _as_bytes(sc.get("", b"?")).decode()))
+                R["cases"].append((dict(case, what="git-import-native"), None, False))
+                R["lines"].append("impn %s %s %d" % (enc_store(objs), orig.decode(), 12))
+                R["impls"].append(show_dump(native_dump_of(nodes[i])))
                 R["cases"].append((dict(case, what="git-reexport"), None, False))
                 R["lines"].append("exp " + enc_tree(nodes[i]))
                 R["impls"].append("%s %s" % (orig.decode(), ";".join(sorted("%s=%s" % (enc_path(p), s.decode()) for p, s in sc.items()))))
@@ -969,7 +1055,10 @@ def git_case(arg):
     except Exception as e:
         import traceback
         R["error"] = traceback.format_exc()[-1500:]
-        viol(base_case, "unexpected %s in the git-first round trip: %s" % (type(e).__name__, str(e)[:300]))
+        if env_error(e):
+            R["infra"] = "%s: %s" % (type(e).__name__, str(e)[:200])
+        else:
+            viol(base_case, "unexpected %s in the git-first round trip: %s" % (type(e).__name__, str(e)[:300]))
     return R
 
 
@@ -979,12 +1068,14 @@ def git_case(arg):
 def mode_cases(ctx):
     from breezy.git import mapping as m
     from dulwich.objects import S_ISGITLINK
+    randoms = [ctx.rng.randrange(0, 0o1000000) for _ in range(ctx.pick(300, 3000))]
     modes = sorted(set(
         [0, 0o040000, 0o100644, 0o100755, 0o120000, 0o160000, 0o100664, 0o100600, 0o100775, 0o100777, 0o100000,
          0o120777, 0o040755, 0o060000, 0o140000, 0o010644, 0o020000, 0o200000, 0o300644, 0o700000, 0o1000000 | 0o100644]
-        + [ctx.rng.randrange(0, 0o1000000) for _ in range(ctx.pick(300, 3000))]
+        + randoms
         + [t | p for t in (0o040000, 0o100000, 0o120000, 0o160000) for p in (0, 0o111, 0o644, 0o755, 0o444, 0o001, 0o010, 0o100)]))
     default = (stat.S_IFDIR, 0o100644, stat.S_IFLNK, 0o100755, 0o160000)
+    structured = set(modes) - set(randoms)
     cases, lines, impls = [], [], []
     for mode in modes:
         try:
@@ -1008,7 +1099,7 @@ def mode_cases(ctx):
         cases.append(dict(mode=mode))
         lines.append("mode %d" % mode)
         impls.append("%s %s %s %s %d" % (k, cls, "~" if unusual is None else unusual, "T" if ex else "F", re_mode))
-        ctx.case(dict(mode=mode), nontrivial=mode not in default)
+        ctx.case(dict(mode=mode), nontrivial=mode not in default and mode in structured)
         ctx.count("mode-class:" + cls)
     for kind, k in (("file", "f"), ("directory", "d"), ("symlink", "l"), ("tree-reference", "t")):
         for x in (False, True):
@@ -1030,7 +1121,11 @@ def mode_cases(ctx):
 
 # --------------------------------------------------------------------------
 
-def _absorb(ctx, R, allc, alll, alli):
+def _absorb(ctx, R, allc, alll, alli, stats=None):
+    if R.get("infra"):
+        raise env.InfraError("C35 worker: %s" % R["infra"])
+    if stats is not None:
+        stats.extend(R.get("stat_lines", []))
     for k, n in R["counts"].items():
         ctx.count(k, n)
     if R.get("error"):
@@ -1078,17 +1173,25 @@ def run(ctx, nnative=None, ngit=None):
     ngit = ngit or ctx.pick(6, 160)
     mode_cases(ctx)
     ctx.extra["unusual_mode_probe"] = unusual_mode_probe()
-    cases, lines, impls = [], [], []
+    cases, lines, impls, stats = [], [], [], []
     corpus = _corpus()
     args = [(("corpus", i), 0, c["script"]) for i, c in enumerate(corpus) if "script" in c]
     args += [((ctx.seed, "n", i), ctx.rng.choice(ctx.pick([14, 22, 34], [14, 30, 60])), None) for i in range(nnative)]
     for R in ctx.pmap(native_case, args, procs=ctx.pick(4, 8)):
-        _absorb(ctx, R, cases, lines, impls)
+        _absorb(ctx, R, cases, lines, impls, stats)
     gargs = [((ctx.seed, "g", i), ctx.rng.choice([3, 5, 8]), None) for i in range(ngit)]
     for R in ctx.pmap(git_case, gargs, procs=ctx.pick(4, 8)):
         _absorb(ctx, R, cases, lines, impls)
     if lines:
         ctx.diff(cases, lines, impls)
+    if stats and ctx.model_available:
+        # which branch of the incremental conversion each leaf of each converted revision took (model's
+        # view of the real SHA map at that moment): reachability of cache hit / miss / other-parent re-use
+        for rep in ctx.model(stats):
+            for kv in rep.split(";"):
+                k, _, n = kv.partition("=")
+                if n.isdigit() and int(n):
+                    ctx.count("incr:" + k, int(n))
 
 
 def _corpus():
